@@ -17,10 +17,14 @@ import (
 )
 
 var prop = flag.String("prop", "C04", "C01|C02|C04|C05|C07|C08|C09|C10|C20")
+var report = flag.String("report", "", "property id to report under (default: -prop)")
 
 func main() {
 	flag.Parse()
-	vx.Main(&vx.Harness{Property: *prop, Name: "agentw-" + strings.ToLower(*prop), Scenarios: scenarios})
+	if *report == "" {
+		*report = *prop
+	}
+	vx.Main(&vx.Harness{Property: *report, Name: "agentw-" + strings.ToLower(*prop), Scenarios: scenarios})
 }
 
 func scenarios(tier string) []vx.Scenario {
